@@ -25,6 +25,11 @@ type prog struct {
 	deliver map[string]string
 	// retry: tasks answered with an error and a retry-mode handler on their first request
 	retry map[string]bool
+	// flood: a signal handed to the instance six times (more than the inbox of a node with two
+	// incoming flows holds) from one goroutine started right after the cancel is issued
+	flood string
+	// throwAll: the instance is started with StartAll followed by ThrowAll
+	throwAll bool
 }
 
 func catch(g *drv.Graph, id string, d drv.EventDef) *drv.Node {
@@ -308,6 +313,37 @@ func corpus() []prog {
 		g.LinkDefault(x, e)
 	}, map[string]any{"again": true}, true)
 	withEvents(map[string]string{"cT": "+1h"})
+	add("late-token-at-catch", func(g *drv.Graph) {
+		// one token listens at the catch event; the other one is on its way to the same catch
+		// event (its task is answered when seen) while the cancel and a burst of events arrive
+		s, f, a, c, e := g.Add(drv.Start, "start"), g.Add(drv.AND, "F"), g.Add(drv.Task, "a1"), catch(g, "cA", drv.EventDef{Kind: "signal", Ref: "A"}), g.Add(drv.End, "end")
+		g.Link(s, f, nil)
+		g.Link(f, c, nil)
+		g.Link(f, a, nil)
+		g.Link(a, c, nil)
+		g.Link(c, e, nil)
+	}, nil, false)
+	ps[len(ps)-1].flood = "Z"
+	add("late-token-at-throw", func(g *drv.Graph) {
+		s, a, t, n, e := g.Add(drv.Start, "start"), g.Add(drv.Task, "a1"), g.Add(drv.Throw, "thr"), g.Add(drv.Task, "n1"), g.Add(drv.End, "end")
+		t.Defs = []drv.EventDef{{Kind: "signal", Ref: "T"}}
+		g.Link(s, a, nil)
+		g.Link(a, t, nil)
+		g.Link(t, n, nil)
+		g.Link(n, e, nil)
+	}, nil, false)
+	ps[len(ps)-1].flood = "Z"
+	add("throw-all", func(g *drv.Graph) {
+		// an intermediate throw event without incoming flow, triggered by ThrowAll
+		s, n, e := g.Add(drv.Start, "start"), g.Add(drv.Task, "n1"), g.Add(drv.End, "end")
+		t, n2, e2 := g.Add(drv.Throw, "thr"), g.Add(drv.Task, "n2"), g.Add(drv.End, "end2")
+		t.Defs = []drv.EventDef{{Kind: "signal", Ref: "T"}}
+		g.Link(s, n, nil)
+		g.Link(n, e, nil)
+		g.Link(t, n2, nil)
+		g.Link(n2, e2, nil)
+	}, nil, false)
+	ps[len(ps)-1].throwAll = true
 	return ps
 }
 
@@ -331,11 +367,24 @@ func bodyK(p prog, maxK int, startRace bool) func() {
 		pre, conc := k == maxK+1 || k == maxK+3, k == maxK+2 || k == maxK+4
 		early := k >= maxK+3
 		r := drv.Open(p.g, defs, drv.OpenOpts{Vars: p.vars, Timer: p.timer, SubCap: 1})
+		r.ThrowAllToo = p.throwAll
 		cancelled := false
 		cancelSeq := -1
 		returnedDo, issuedDo := 0, 0
 		returnedEv, issuedEv := 0, 0
 		seen := map[string]int{}
+		flood := func() {
+			if p.flood == "" {
+				return
+			}
+			issuedEv++
+			go func() {
+				for i := 0; i < 6; i++ {
+					r.Signal(p.flood)
+				}
+				returnedEv++
+			}()
+		}
 		r.OnTrace = func(seq int, raw tracing.ITrace) {
 			if tt, ok := tracing.Unwrap(raw).(bpmn.TaskTrace); ok && !cancelled {
 				id := ""
@@ -389,6 +438,7 @@ func bodyK(p prog, maxK int, startRace bool) func() {
 				cancelled = true
 				cancelSeq = seq
 				r.Cancel()
+				flood()
 			}
 		}
 		var w *drv.Wait
@@ -397,6 +447,7 @@ func bodyK(p prog, maxK int, startRace bool) func() {
 				// cancellation point 0: right after StartAll has returned
 				cancelled = true
 				r.Cancel()
+				flood()
 			}
 			w = r.WaitComplete(r.Ctx)
 		}
@@ -417,12 +468,14 @@ func bodyK(p prog, maxK int, startRace bool) func() {
 		if conc {
 			cancelled = true
 			go r.Cancel()
+			flood()
 		}
 		verifrt.WaitIdle()
 		if !cancelled {
 			cancelled = true
 			cancelSeq = r.NTraces - 1
 			r.Cancel()
+			flood()
 			verifrt.WaitIdle()
 		}
 		sig := "C07/" + p.name
@@ -535,7 +588,7 @@ func init() {
 		}
 		// StartAll racing the cancellation and event deliveries, at two deviations
 		for _, p := range corpus() {
-			if thorough || p.name == "task-pending" || p.name == "two-starts" {
+			if thorough || p.name == "task-pending" || p.name == "two-starts" || p.name == "throw-all" {
 				out = append(out, &h.Scn{Name: fmt.Sprintf("C07/%s/start-race/d2", p.name), Body: startRaceBody(p), Opts: verifrt.Options{Bound: 2, UseCache: true}, Weight: 2000, Split: 4})
 			}
 		}
